@@ -118,6 +118,44 @@ def run(ctx):
                                        f"{name} linked with {vec} behaves differently: {beh} vs reference {ref}",
                                        lambda: save_replay(PROP, f"{name}-o{i}", d / name, meta={"vector": vec, "observed": beh, "reference": ref, "non_default": diff_opts}))
             samples.append({"program": name, "vectors_linked_and_run": len(results), "reference_stdout": ref[1][:120]})
+        # A shared library with many similarly named exported functions (names sharing suffixes fall
+        # into the same SysV hash bucket), linked by wild under every hash style, used by an executable
+        # that calls every function: the run-time loader's lookups are the observation.
+        ld_dir = d / "shlib"
+        ld_dir.mkdir()
+        kinds_ops = [f"{a}_{b}" for a in ("list", "map", "tree", "heap", "ring", "trie", "set", "bag") for b in ("get", "set", "del", "len", "new")]
+        (ld_dir / "lib.c").write_text("\n".join(f"int {n}(int x) {{ return x * {i + 3} + {i}; }}" for i, n in enumerate(kinds_ops)) + "\n")
+        (ld_dir / "main.c").write_text("#include <stdio.h>\n" + "\n".join(f"int {n}(int);" for n in kinds_ops) +
+                                       "\nint main(void) { long s = 0; " + " ".join(f"s += {n}({i});" for i, n in enumerate(kinds_ops)) +
+                                       ' printf("sum=%ld\\n", s); return 0; }\n')
+        from vlib.common import sh as _sh
+        _sh(["gcc", "-c", "-O1", "-fPIC", "-o", ld_dir / "lib.o", ld_dir / "lib.c"], timeout=120, check=True)
+        _sh(["gcc", "-c", "-O1", "-fPIE", "-o", ld_dir / "main.o", ld_dir / "main.c"], timeout=120, check=True)
+        ref_so = ld_dir / "ref" / "libmany.so"
+        ref_so.parent.mkdir()
+        _sh(["gcc", f"-B{bg}/", "-shared", "-o", ref_so, ld_dir / "lib.o"], timeout=120, check=True)
+        _sh(["gcc", f"-B{bg}/", "-o", ld_dir / "ref" / "main", ld_dir / "main.o", f"-L{ref_so.parent}", "-lmany", f"-Wl,-rpath,{ref_so.parent}"], timeout=120, check=True)
+        ref_beh = progs.execute(ld_dir / "ref" / "main")
+        n_sh = 0
+        for hs in ("gnu", "sysv", "both"):
+            for extra in ([], ["-Wl,--no-gc-sections"], ["-Wl,-z,now"]):
+                vd = ld_dir / f"{hs}{len(extra)}{extra[0][-3:] if extra else ''}"
+                vd.mkdir()
+                so = vd / "libmany.so"
+                r1 = _sh(["gcc", f"-B{bw}/", "-shared", f"-Wl,--hash-style={hs}", *extra, "-o", so, ld_dir / "lib.o"], timeout=120)
+                r2 = _sh(["gcc", f"-B{bw}/", f"-Wl,--hash-style={hs}", *extra, "-o", vd / "main", ld_dir / "main.o", f"-L{vd}", "-lmany", f"-Wl,-rpath,{vd}"], timeout=120) if r1.rc == 0 else r1
+                n_sh += 1
+                if r2.rc != 0:
+                    ctx.verdict.report(f"link-rejected:shlib-many-symbols:{hs}", f"wild failed to link the library/executable pair with hash-style {hs}: {r2.err[-300:]}",
+                                       lambda: save_replay(PROP, f"shlib-{hs}", vd, meta={"hash_style": hs, "extra": extra, "stderr": r2.err[-1500:]}))
+                    continue
+                beh = progs.execute(vd / "main")
+                if beh != ref_beh:
+                    ctx.verdict.report(f"behaviour-differs:shlib-many-symbols:hash-{hs}",
+                                       f"executable + shared library linked with --hash-style={hs} {extra}: {beh} vs reference {ref_beh}",
+                                       lambda: save_replay(PROP, f"shlib-{hs}", ld_dir, meta={"hash_style": hs, "extra": extra, "observed": beh, "reference": ref_beh}))
+        total += n_sh
+        samples.append({"program": "shlib-many-symbols", "variants_linked_and_run": n_sh, "reference_stdout": ref_beh[1][:60]})
     cov["evaluations"] = total
     cov["distinct_nontrivial"] = total
     cov["rule"] = "distinct (program, option vector) pairs; each is a full link through the compiler driver followed by a native run"
